@@ -62,7 +62,9 @@ class DensityMatrixEvolution(MatrixData, BasisManaged, Saveable):
 
         ti, dt = self.TimeAxis.locate(time)
 
-        return DensityMatrix(data=self.data[ti, :, :])
+        # the returned object must not share memory with this evolution
+        # (both are basis managed and are transformed independently)
+        return DensityMatrix(data=numpy.array(self.data[ti, :, :]))
 
 
     def transform(self, SS, inv=None):
@@ -315,5 +317,7 @@ class ReducedDensityMatrixEvolution(DensityMatrixEvolution):
 
         ti, dt = self.TimeAxis.locate(time)
 
-        return ReducedDensityMatrix(data=self.data[ti, :, :])
+        # the returned object must not share memory with this evolution
+        # (both are basis managed and are transformed independently)
+        return ReducedDensityMatrix(data=numpy.array(self.data[ti, :, :]))
 
